@@ -505,6 +505,20 @@ func (m *Model) structuralC10() []*Obl {
 			}
 		}
 	}
+	// package-level variables that can hold references are state shared by every run in the process
+	var shared []string
+	okGlobal := map[string]bool{"arrayPrototype": true, "objPrototype": true, "strPrototype": true, "numPrototype": true,
+		"errContinue": true, "errBreak": true, "errReturn": true, "errNext": true, "errExit": true}
+	for g := range m.globals {
+		if g.Pkg == nil || g.Pkg.Pkg.Name() != "lang" || okGlobal[g.Name()] || strings.HasPrefix(g.Name(), "init$") {
+			continue
+		}
+		if holdsReference(g.Type().(*types.Pointer).Elem(), map[types.Type]bool{}) {
+			shared = append(shared, fmt.Sprintf("%s %s (%s)", g.Name(), g.Type().(*types.Pointer).Elem(), m.fset.Position(g.Pos())))
+		}
+	}
+	sort.Strings(shared)
+	add("package lang#structural:no-other-shared-reference-state", "the only package-level variables of package lang that can hold references are the four prototype singletons and the five control-flow sentinels", len(shared) == 0, strings.Join(shared, "\n"))
 	add("package lang#structural:package-state-written-only-by-prototype-initialisers", "no package-level variable of package lang is assigned outside init, except each prototype singleton by its own lazy initialiser", len(writes) == 0, strings.Join(writes, "\n"))
 	add("package lang#structural:maps-ranged-only-where-order-is-unobservable", "range over a Go map occurs only in NewValue, toGoValueInterval, prettyStringInteral, evalExpr, evalCaseMatch, evalStatement, and there only with an order-insensitive body: no early exit, no output, no fault, no write to existing values other than entering distinct keys into a map or collecting the keys into a local slice (sorted before use: see the sorted-order invariants)", len(ranges) == 0, strings.Join(ranges, "\n"))
 	add("package lang#structural:no-nondeterminism-source", "package lang starts no goroutine and calls nothing in time, math/rand, crypto/rand, os, runtime, reflect, unsafe, sync", len(calls) == 0, strings.Join(calls, "\n"))
@@ -685,4 +699,26 @@ func firstPos(b *ssa.BasicBlock) token.Pos {
 		}
 	}
 	return token.NoPos
+}
+
+// holdsReference: a value of type t can contain a pointer, map, slice, channel, function or interface.
+func holdsReference(t types.Type, seen map[types.Type]bool) bool {
+	if seen[t] {
+		return false
+	}
+	seen[t] = true
+	switch u := t.Underlying().(type) {
+	case *types.Basic:
+		return u.Kind() == types.UnsafePointer
+	case *types.Array:
+		return holdsReference(u.Elem(), seen)
+	case *types.Struct:
+		for i := 0; i < u.NumFields(); i++ {
+			if holdsReference(u.Field(i).Type(), seen) {
+				return true
+			}
+		}
+		return false
+	}
+	return true
 }
